@@ -7,6 +7,8 @@ mod coqfmt;
 mod params;
 mod rng;
 mod c15;
+mod pool;
+mod poolgen;
 
 use std::fs;
 use std::io::Write;
@@ -32,6 +34,8 @@ pub struct CaseSet {
     pub header: String,
     /// Coq function of type `list case -> list (N * N * N)`
     pub runner: String,
+    /// interned byte-string definitions (`Definition hx<i> := ...`), index = i
+    pub defs: Vec<String>,
     pub cases: Vec<String>,
     pub descr: Vec<String>,
     /// failure signatures per (case, sub-case) used to match KNOWN_FINDINGS entries
@@ -56,12 +60,12 @@ fn json_str(s: &str) -> String {
 }
 
 fn write_caseset(cs: &CaseSet, outdir: &str, shards: usize) {
+    fs::create_dir_all(outdir).expect("mkdir");
     let mut f = fs::File::create(format!("{}/sigs.tsv", outdir)).expect("create");
     for (c, s, sig) in &cs.sigs {
         writeln!(f, "{}\t{}\t{}", c, s, sig).unwrap();
     }
     drop(f);
-    fs::create_dir_all(outdir).expect("mkdir");
     let n = cs.cases.len();
     let shards = shards.max(1).min(n.max(1));
     for k in 0..shards {
@@ -69,8 +73,24 @@ fn write_caseset(cs: &CaseSet, outdir: &str, shards: usize) {
         writeln!(f, "From Coq Require Import List NArith String Bool ZArith.").unwrap();
         writeln!(f, "{}", cs.header).unwrap();
         writeln!(f, "Import ListNotations.").unwrap();
-        writeln!(f, "Definition cases := [").unwrap();
         let mine: Vec<&String> = cs.cases.iter().enumerate().filter(|(i, _)| i % shards == k).map(|(_, c)| c).collect();
+        // emit only the interned definitions this shard refers to
+        let mut used = vec![false; cs.defs.len()];
+        for c in &mine {
+            let b = c.as_bytes();
+            let mut i = 0;
+            while i + 2 < b.len() {
+                if b[i] == b'h' && b[i + 1] == b'x' && b[i + 2].is_ascii_digit() && (i == 0 || !b[i - 1].is_ascii_alphanumeric()) {
+                    let mut j = i + 2;
+                    let mut v = 0usize;
+                    while j < b.len() && b[j].is_ascii_digit() { v = v * 10 + (b[j] - b'0') as usize; j += 1; }
+                    if v < used.len() { used[v] = true; }
+                    i = j;
+                } else { i += 1; }
+            }
+        }
+        for (i, d) in cs.defs.iter().enumerate() { if used[i] { writeln!(f, "{}", d).unwrap(); } }
+        writeln!(f, "Definition cases := [").unwrap();
         for (i, c) in mine.iter().enumerate() {
             writeln!(f, "  {}{}", c, if i + 1 < mine.len() { ";" } else { "" }).unwrap();
         }
@@ -99,7 +119,17 @@ fn write_caseset(cs: &CaseSet, outdir: &str, shards: usize) {
     fs::write(format!("{}/stats.json", outdir), j).expect("write stats");
 }
 
+pub static LAST_PANIC: std::sync::Mutex<String> = std::sync::Mutex::new(String::new());
+
 fn main() {
+    let r = std::panic::catch_unwind(real_main);
+    if r.is_err() {
+        eprintln!("agverif: harness panicked: {}", LAST_PANIC.lock().unwrap());
+        std::process::exit(101);
+    }
+}
+
+fn real_main() {
     let args: Vec<String> = std::env::args().collect();
     if args.len() < 2 {
         eprintln!("usage: agverif params | gen <ID> <quick|thorough> <seed> <outdir> [shards]");
@@ -114,9 +144,16 @@ fn main() {
             let outdir = &args[5];
             let shards: usize = args.get(6).map(|s| s.parse().expect("shards")).unwrap_or(16);
             // keep panics of the implementation from aborting the harness; generators use catch_unwind
-            std::panic::set_hook(Box::new(|_| {}));
+            std::panic::set_hook(Box::new(|info| {
+                if std::env::var("AGVERIF_DEBUG").is_ok() {
+                    eprintln!("[panic] {}", info);
+                }
+                *LAST_PANIC.lock().unwrap() = format!("{}", info);
+            }));
             let cs = match id {
                 "C15" => c15::generate(seed, tier),
+                "C03" => poolgen::gen_c03(seed, tier),
+                "C04" => poolgen::gen_c04(seed, tier),
                 _ => {
                     eprintln!("unknown property {}", id);
                     std::process::exit(2);
